@@ -114,6 +114,11 @@ enum Op {
     SetHandler(u8, u32),
     /// the guest stores a long word into the vector's table entry (MOV.L ER0,@aa:24)
     StoreVec(u8, u32),
+    /// a peripheral raises a request while interrupts are masked: it stays pending - through whatever TRAPA, RTE and
+    /// CCR changes follow - until `Accept`
+    Raise(u8),
+    /// the run loop's poll with I clear: the pending request is accepted now, through its own vector
+    Accept,
 }
 
 struct History {
@@ -134,6 +139,7 @@ fn build_history(e: &mut Ent) -> History {
     let n = 1 + e.below(40) as usize;
     let mut ops = vec![];
     let mut depth = 0usize;
+    let mut outstanding: Option<u8> = None;
     // vectors of this history come from a small pool now and then, so that the table entry an interrupt
     // uses has been rewritten (by set_handler, by a store, by both) before
     let pool = [1 + e.below(63) as u8, 1 + e.below(63) as u8];
@@ -148,19 +154,33 @@ fn build_history(e: &mut Ent) -> History {
                 Op::SetHandler(v, (hbase + 0x10 * (1 + e.below(63))) | e.upper_byte())
             }
             8 => Op::StoreVec(if e.chance(1, 4) { 9 + e.below(3) as u8 } else { vec_of(e) }, (hbase + 0x10 * (1 + e.below(63))) | e.upper_byte()),
+            9 if outstanding.is_none() && e.chance(1, 2) => Op::Raise(vec_of(e)),
+            9 if outstanding.is_some() => Op::Accept,
             _ => Op::SetCcr(e.u8()),
         };
         match op {
-            Op::Trap(_) | Op::Irq(_) => {
+            Op::Trap(_) | Op::Irq(_) | Op::Accept => {
                 if depth >= 16 {
                     continue;
                 }
+                // one request in flight at a time (the order of simultaneously pending requests is not constrained)
+                if matches!(op, Op::Irq(_)) && outstanding.is_some() {
+                    continue;
+                }
+                if matches!(op, Op::Accept) {
+                    outstanding = None;
+                }
                 depth += 1;
             }
+            Op::Raise(v) => outstanding = Some(v),
             Op::Rte => depth -= 1,
             _ => {}
         }
         ops.push(op);
+    }
+    if outstanding.is_some() {
+        ops.push(Op::Accept);
+        depth += 1;
     }
     // unwind completely at the end: the round trip must restore the initial context
     for _ in 0..depth {
@@ -186,6 +206,7 @@ fn run_history(emu: &mut Emu, h: &History) -> Result<(usize, usize), String> {
     let mut entries = 0usize;
     let mut maxd = 0usize;
     let mut pending: std::collections::VecDeque<Ctl> = Default::default();
+    let mut raised: Option<u8> = None;
     let mut sync_regs = false;
     // argument block of the MES call: 8 bytes outside every handler slot, frame and start position
     let blk = (h.prog.image[0].1[1] as u32) << 16 | (h.prog.image[0].1[2] as u32) << 8 | h.prog.image[0].1[3] as u32;
@@ -256,6 +277,34 @@ fn run_history(emu: &mut Emu, h: &History) -> Result<(usize, usize), String> {
                 check_restore = shadow.pop();
                 Ctl::Step
             }
+            Op::Raise(vn) => {
+                // masked first, so that nothing can be accepted on the way
+                if v.ccr & F_I == 0 && stage == 0 {
+                    stage = 1;
+                    return Ctl::SetCcr(v.ccr | F_I);
+                }
+                stage = 0;
+                i += 1;
+                raised = Some(vn);
+                Ctl::Raise(vn)
+            }
+            Op::Accept => {
+                let Some(vn) = raised else {
+                    i += 1;
+                    return Ctl::SetCcr(v.ccr);
+                };
+                if v.ccr & F_I != 0 && stage == 0 {
+                    stage = 1;
+                    return Ctl::SetCcr(v.ccr & !F_I);
+                }
+                stage = 0;
+                i += 1;
+                raised = None;
+                shadow.push((*v.er, v.ccr, v.pc & MASK24));
+                entries += 1;
+                maxd = maxd.max(shadow.len());
+                Ctl::Poll(vn)
+            }
             Op::SetHandler(vn, target) => {
                 i += 1;
                 let mut b = (vn as u32).to_be_bytes().to_vec();
@@ -294,7 +343,8 @@ fn run_history(emu: &mut Emu, h: &History) -> Result<(usize, usize), String> {
 fn history_json(h: &History) -> Value {
     json!({"kind": "history", "prog": h.prog.to_json(), "ops": h.ops.iter().map(|o| match o {
         Op::Trap(n) => json!(["trap", n]), Op::Irq(n) => json!(["irq", n]), Op::Rte => json!(["rte", 0]), Op::SetCcr(c) => json!(["ccr", c]),
-        Op::SetHandler(v, t) => json!(["sethandler", v, t]), Op::StoreVec(v, t) => json!(["storevec", v, t]) }).collect::<Vec<_>>()})
+        Op::SetHandler(v, t) => json!(["sethandler", v, t]), Op::StoreVec(v, t) => json!(["storevec", v, t]),
+        Op::Raise(v) => json!(["raise", v]), Op::Accept => json!(["accept", 0]) }).collect::<Vec<_>>()})
 }
 fn history_from_json(v: &Value) -> Option<History> {
     let prog = Prog::from_json(v.get("prog")?)?;
@@ -309,6 +359,8 @@ fn history_from_json(v: &Value) -> Option<History> {
                 "trap" => Op::Trap(n),
                 "irq" => Op::Irq(n),
                 "rte" => Op::Rte,
+                "raise" => Op::Raise(n),
+                "accept" => Op::Accept,
                 "sethandler" => Op::SetHandler(n, o.get(2)?.as_u64()? as u32),
                 "storevec" => Op::StoreVec(n, o.get(2)?.as_u64()? as u32),
                 _ => Op::SetCcr(n),
@@ -409,6 +461,19 @@ pub fn run(ctx: &Ctx) -> i32 {
                             if both {
                                 st.class("history: interrupt through a table entry rewritten earlier (set_handler / guest store)");
                             }
+                            let mut out = false;
+                            let mut trap_while_pending = false;
+                            for o in &h.ops {
+                                match o {
+                                    Op::Raise(_) => out = true,
+                                    Op::Accept => out = false,
+                                    Op::Trap(_) | Op::Rte if out => trap_while_pending = true,
+                                    _ => {}
+                                }
+                            }
+                            if trap_while_pending {
+                                st.class("history: TRAPA / RTE executed while a masked request is pending");
+                            }
                         }
                         if depth >= 2 {
                             st.class("history: nesting depth >= 2");
@@ -437,7 +502,7 @@ pub fn run(ctx: &Ctx) -> i32 {
         w.stats.into_inner()
     });
     stats.merge(hstats);
-    let rule = "cases = single steps of TRAPA #1-#3 (all 256 CCR), interrupt acceptance for every vector 1-63 (every CCR value with I clear; through request + the run loop's poll), RTE on crafted frames, with vector/frame top bytes arbitrary, SP across RAM and DRAM incl. non-zero upper byte; plus histories of nested {TRAPA, interrupt, RTE, CCR change, vector-table entry rewritten by the MES set_handler call or by a guest store} up to depth 16 executed in lockstep with the reference and against a shadow stack of saved contexts (after entry;RTE registers, CCR and PC must equal the pre-entry context). Oracle = reference post-state (frame bytes, SP, I set, UI masked, PC from the low 24 bits of the vector) and the round trip. Non-trivial = entry with CCR not 0x00/0xff, or a history with nesting depth >= 2.";
+    let rule = "cases = single steps of TRAPA #1-#3 (all 256 CCR), interrupt acceptance for every vector 1-63 (every CCR value with I clear; through request + the run loop's poll), RTE on crafted frames, with vector/frame top bytes arbitrary, SP across RAM and DRAM incl. non-zero upper byte; plus histories of nested {TRAPA, interrupt, RTE, CCR change, vector-table entry rewritten by the MES set_handler call or by a guest store, a request raised while masked and accepted later} up to depth 16 executed in lockstep with the reference and against a shadow stack of saved contexts (after entry;RTE registers, CCR and PC must equal the pre-entry context). Oracle = reference post-state (frame bytes, SP, I set, UI masked, PC from the low 24 bits of the vector) and the round trip. Non-trivial = entry with CCR not 0x00/0xff, or a history with nesting depth >= 2.";
     let mut extra = Map::new();
     extra.insert("masked_details".into(), json!(["UI after entry (the property allows it to change)"]));
     stats.merge(crate::checks::soup::phase_irq(ctx, P, crate::checks::soup::Flavor::All, ctx.tier.pick(200_000, 4_000_000), 0x6510000, false, true));
